@@ -44,6 +44,11 @@ def errorMessage (attached detailsDisabled : Bool) (e : Err) : List MsgPart :=
     (if e.reason.isEmpty then [MsgPart.fieldName e.field] else e.reason.map .reason) ++
     (if detailsDisabled then [] else [.schemaDump, .valueDump e.value])
 
+/-- `MultiError.Error()` (openapi3/errors.go, `spliceErr`): the members' texts in order, separated by the literal " | "
+(the separator is a literal of the source: no part) -/
+def multiMessage (attached detailsDisabled : Bool) (es : List Err) : List MsgPart :=
+  es.flatMap (errorMessage attached detailsDisabled)
+
 /-- the flow the regenerated table SettingsFlow establishes for every site of the visitor -/
 def SiteFlow.sound : SiteFlow := { carries := true, callerSettings := true }
 
